@@ -987,6 +987,37 @@ pub fn generate(name: &str, count: usize, rng: &mut Rng, sink: &mut dyn FnMut(Se
                 sink(Session { sid: format!("v1words-{}", i), tag: json!({"g": "v1words"}), chunks, huge: None, consume: false });
             }
         }
+        // UNKNOWN text with characters that Unicode-aware helpers treat specially (White_Space that
+        // trim() strips, line separators that lines() splits at, zero-width and bidi marks,
+        // combining marks, noncharacters, the last scalar values before / after the surrogates):
+        // at the end of the text, at its start, alone, and doubled
+        "v1unicode" => {
+            let specials: [char; 26] = ['\u{85}', '\u{a0}', '\u{1680}', '\u{2000}', '\u{2003}', '\u{200a}', '\u{2028}', '\u{2029}', '\u{202f}',
+                '\u{205f}', '\u{3000}', '\u{200b}', '\u{feff}', '\u{301}', '\u{200f}', '\u{202e}', '\u{fffe}', '\u{ffff}', '\u{10ffff}', '\u{d7ff}',
+                '\u{e000}', '\u{7ff}', '\u{800}', '\u{10000}', '\u{1c}', '\u{1f}'];
+            let mut texts: Vec<String> = Vec::new();
+            for c in specials.iter() {
+                texts.push(format!(" abc{}", c));
+                texts.push(format!(" {}abc", c));
+                texts.push(format!(" {}", c));
+                texts.push(format!("{}", c));
+                texts.push(format!(" a{}{}", c, c));
+                texts.push(format!(" a {} b", c));
+            }
+            let total = texts.len();
+            let take = count.min(total);
+            let step = total as f64 / take as f64;
+            let off = (rng.below(97) as f64) / 97.0 * step;
+            for i in 0..take {
+                let text = &texts[((off + i as f64 * step) as usize).min(total - 1)];
+                let mut bytes = format!("PROXY UNKNOWN{}\r\n", text).into_bytes();
+                if i % 3 == 0 {
+                    bytes.extend_from_slice("\u{2028}GET".as_bytes());
+                }
+                let chunks = if i % 2 == 0 { split_each(&bytes) } else { vec![bytes.clone()] };
+                sink(Session { sid: format!("v1unicode-{}", i), tag: json!({"g": "v1unicode"}), chunks, huge: None, consume: false });
+            }
+        }
         // arbitrary bytes over small alphabets, incl. multi-byte characters next to CR
         "v1junk" => {
             let pieces: [&[u8]; 14] = [b"P", b"PROXY", b" ", b"\r", b"\n", "\u{e9}".as_bytes(), "\u{20ac}".as_bytes(), "\u{1F600}".as_bytes(), b"UNKNOWN", b"TCP4", b"1", b"\xff", b"\x00", b"::"];
